@@ -171,13 +171,27 @@ def parse_header(text, module, name):
     n_mi = sum(1 for i in module.imports if i.kind == "memory")
     n_ti = sum(1 for i in module.imports if i.kind == "table")
     n_gi = sum(1 for i in module.imports if i.kind == "global")
-    want = 1 + n_mi + n_ti + n_gi + len(module.mems) + len(module.tables) + len(module.globals)
-    if len(fields) != want:
-        raise E2EError("instance struct has %d fields, module shape wants %d" % (len(fields), want))
-    pos = 1
-    h.mem_imports = fields[pos:pos + n_mi]; pos += n_mi
-    h.table_imports = fields[pos:pos + n_ti]; pos += n_ti
-    h.global_imports = fields[pos:pos + n_gi]; pos += n_gi
+    # an object imported several times ((module, field) of an earlier entry of the same kind) has ONE member, declared at its first entry
+    # (w2c2 994dbb2; before: one member per entry — duplicate members, the header does not compile, which then is the finding)
+    own = {k: import_owner(module, k) for k in ("memory", "table", "global")}
+    d_mi, d_ti, d_gi = (len(set(own[k])) for k in ("memory", "table", "global"))
+    rest_n = len(module.mems) + len(module.tables) + len(module.globals)
+    if len(fields) == 1 + d_mi + d_ti + d_gi + rest_n:
+        def members(kind, start):
+            firsts = sorted(set(own[kind]))
+            return [fields[start + firsts.index(o)] for o in own[kind]]
+        pos = 1
+        h.mem_imports = members("memory", pos); pos += d_mi
+        h.table_imports = members("table", pos); pos += d_ti
+        h.global_imports = members("global", pos); pos += d_gi
+    elif len(fields) == 1 + n_mi + n_ti + n_gi + rest_n:
+        pos = 1
+        h.mem_imports = fields[pos:pos + n_mi]; pos += n_mi
+        h.table_imports = fields[pos:pos + n_ti]; pos += n_ti
+        h.global_imports = fields[pos:pos + n_gi]; pos += n_gi
+    else:
+        raise E2EError("instance struct has %d fields, module shape wants %d (or %d with one member per import entry)"
+                       % (len(fields), 1 + d_mi + d_ti + d_gi + rest_n, 1 + n_mi + n_ti + n_gi + rest_n))
     h.mems = fields[pos:pos + len(module.mems)]; pos += len(module.mems)
     h.tables = fields[pos:pos + len(module.tables)]; pos += len(module.tables)
     h.globals = fields[pos:pos + len(module.globals)]
@@ -277,31 +291,37 @@ def gen_main(module, name, header_text, script, imports_spec=None, instances=1, 
             fidx += 1
         elif im.kind == "memory":
             lim = im.desc
-            storage.append("static wasmMemory* impmem%d[NINST];" % n)
-            alloc.append("    impmem%d[k] = wasmMemoryAllocate(%dU, %dU, %s);" % (n, lim.min, lim.max if lim.max is not None else 65536, "true" if lim.shared else "false"))
-            mf = (imports_spec or {}).get("mem_fill") or {}
-            for off, hx in (mf.get(n, mf.get(str(n))) or []):      # bytes the embedder wrote before instantiation
-                alloc.append('    memcpy(impmem%d[k]->data + %dU, %s, %d);' % (n, int(off), c_string(bytes.fromhex(hx)), len(hx) // 2))
-            resolve.append("  if (!strcmp(module, %s) && !strcmp(name, %s)) return impmem%d[rescur];" % (c_string(im.module), c_string(im.field), n))
-            dumps.append('    OUT("b %%d %d %%d\\n", k, INST(k).%s == impmem%d[impOwner[k]]);' % (n, h.mem_imports[mi][1], n))
+            n0 = import_owner_entry(module, n)      # an object imported once more: the host object of its first entry (one per C symbol)
+            if n0 == n:
+                storage.append("static wasmMemory* impmem%d[NINST];" % n)
+                alloc.append("    impmem%d[k] = wasmMemoryAllocate(%dU, %dU, %s);" % (n, lim.min, lim.max if lim.max is not None else 65536, "true" if lim.shared else "false"))
+                mf = (imports_spec or {}).get("mem_fill") or {}
+                for off, hx in (mf.get(n, mf.get(str(n))) or []):      # bytes the embedder wrote before instantiation
+                    alloc.append('    memcpy(impmem%d[k]->data + %dU, %s, %d);' % (n, int(off), c_string(bytes.fromhex(hx)), len(hx) // 2))
+                resolve.append("  if (!strcmp(module, %s) && !strcmp(name, %s)) return impmem%d[rescur];" % (c_string(im.module), c_string(im.field), n))
+            dumps.append('    OUT("b %%d %d %%d\\n", k, INST(k).%s == impmem%d[impOwner[k]]);' % (n, h.mem_imports[mi][1], n0))
             mi += 1
         elif im.kind == "table":
             lim = im.desc.limits
-            storage.append("static wasmTable imptab%d[NINST];" % n)
-            alloc.append("    wasmTableAllocate(&imptab%d[k], %dU, %uU);" % (n, lim.min, lim.max if lim.max is not None else 4294967295))
-            resolve.append("  if (!strcmp(module, %s) && !strcmp(name, %s)) return &imptab%d[cur];" % (c_string(im.module), c_string(im.field), n))
+            n0 = import_owner_entry(module, n)
+            if n0 == n:
+                storage.append("static wasmTable imptab%d[NINST];" % n)
+                alloc.append("    wasmTableAllocate(&imptab%d[k], %dU, %uU);" % (n, lim.min, lim.max if lim.max is not None else 4294967295))
+                resolve.append("  if (!strcmp(module, %s) && !strcmp(name, %s)) return &imptab%d[cur];" % (c_string(im.module), c_string(im.field), n))
             # (an imported table is never shared with a child: a wasm table entry is a closure over its defining instance, w2c2's is a C
             #  function pointer called with the CALLER's instance — with a table shared between instances the two differ by design)
-            dumps.append('    OUT("b %%d %d %%d\\n", k, INST(k).%s == &imptab%d[k]);' % (n, h.table_imports[ti][1], n))
+            dumps.append('    OUT("b %%d %d %%d\\n", k, INST(k).%s == &imptab%d[k]);' % (n, h.table_imports[ti][1], n0))
             ti += 1
         else:
             vt = im.desc.valtype
-            bits = int(gl.get(n, gl.get(str(n), 0)))
-            storage.append("static %s impglob%d[NINST];" % (CT[vt], n))
-            alloc.append("    impglob%d[k] = %s;" % (n, lit(vt, bits)))
-            resolve.append("  if (!strcmp(module, %s) && !strcmp(name, %s)) return &impglob%d[rescur];" % (c_string(im.module), c_string(im.field), n))
-            dumps.append('    OUT("b %%d %d %%d\\n", k, INST(k).%s == &impglob%d[impOwner[k]]);' % (n, h.global_imports[gi][1], n))
-            f, a = show(vt, "impglob%d[impOwner[k]]" % n)
+            n0 = import_owner_entry(module, n)
+            if n0 == n:
+                bits = int(gl.get(n, gl.get(str(n), 0)))
+                storage.append("static %s impglob%d[NINST];" % (CT[vt], n))
+                alloc.append("    impglob%d[k] = %s;" % (n, lit(vt, bits)))
+                resolve.append("  if (!strcmp(module, %s) && !strcmp(name, %s)) return &impglob%d[rescur];" % (c_string(im.module), c_string(im.field), n))
+            dumps.append('    OUT("b %%d %d %%d\\n", k, INST(k).%s == &impglob%d[impOwner[k]]);' % (n, h.global_imports[gi][1], n0))
+            f, a = show(vt, "impglob%d[impOwner[k]]" % n0)
             dumps.append('    OUT("g %%d %d %s\\n", k, %s);' % (gi, f, a))
             gi += 1
     n_fi = fidx_total = sum(1 for i in module.imports if i.kind == "func")
@@ -769,6 +789,25 @@ def const_value(module, expr, imports_spec):
         n = ords[expr.imm[0]]
         return int(gl.get(n, gl.get(str(n), 0)))
     return expr.imm[0]
+
+
+def import_owner(module, kind):
+    """per import entry of `kind` (in order): the ordinal (among the entries of that kind) of the FIRST entry with the same (module, field)
+    — an object imported several times is one host object, one C symbol, one member of the instance"""
+    first, out = {}, []
+    for im in module.imports:
+        if im.kind == kind:
+            out.append(first.setdefault((bytes(im.module), bytes(im.field)), len(out)))
+    return out
+
+
+def import_owner_entry(module, n):
+    """index into module.imports of the first entry that is the same object as entry n"""
+    im = module.imports[n]
+    for k, o in enumerate(module.imports):
+        if o.kind == im.kind and bytes(o.module) == bytes(im.module) and bytes(o.field) == bytes(im.field):
+            return k
+    return n
 
 
 def canon_func(module):
